@@ -590,6 +590,13 @@ func (t *treeMgr) DeleteTree(ctx context.Context, spaceId, treeId string) (err e
 	if err != nil {
 		return err
 	}
+	// a cache may close the tree between handing it out and the Delete call (GC, TryClose, the space closing):
+	// Delete then fails on the closed tree, nothing was removed, and the id has to stay queued for the next run
+	// (added after seeded change C15-7 - the deleter treating "closed" as "gone" - was missed)
+	if _, cached := t.open[treeId]; cached && t.n.w.rng.Intn(6) == 0 {
+		t.closeTree(treeId)
+		t.n.w.count("deleter.tree_closed_between_pick_and_delete", 1)
+	}
 	if err = tr.Delete(); err != nil {
 		return err
 	}
